@@ -94,7 +94,10 @@ namespace rkcommon {
           if (l->shouldBeRunning) {
             RKCOMMON_VERIF_POINT("A:loop after running-flag check");
             l->insideLoopBody = true;
-            fcn();
+            // re-check after publishing insideLoopBody: a stop() that ran in
+            // between saw insideLoopBody == false and has already returned
+            if (l->shouldBeRunning)
+              fcn();
             l->insideLoopBody = false;
             RKCOMMON_VERIF_POINT("B:loop after body");
           } else {
